@@ -164,6 +164,8 @@ tevent = z3.Function('tevent', Int, Int, Int, ISeq)    # writer w: the event wri
 evopaque = z3.Const('evopaque', ISeq)                  # one write() of text the contract does not look into (titles, header values, user text)
 opq = z3.Function('opq', Int, CSeq)                    # k such events in a row
 wid = z3.Function('wid', Int, Int, Int)                # writer id of the row renderer for given (split_every, compact): one definition of rowapp per parameter choice
+evnest = z3.Function('evnest', Int, CSeq, ISeq)        # one write() of a text assembled in a buffer: (template id of the wrapping, the buffer's trace)
+dedges = z3.Function('dedges', Int, Int, Int, CSeq)    # (template id, graph, t): one event per edge of the first t edges of the edge view
 evrow = z3.Function('evrow', Int, ISeq, ISeq)          # one write() whose text is prefix + sep.join(text_of(l) for l in clause) + suffix: (template id, clause)
 rowapp = z3.Function('rowapp', Int, CSeq, Int, CSeq)   # writer w: the trace after the events of row i were appended (defined by the writer's contract)
 rowsfrom = z3.Function('rowsfrom', Int, CSeq, Int, CSeq)   # rows 0..t-1 appended to a trace, one after the other
@@ -200,7 +202,7 @@ FUNCS = dict(tlen=tlen, tcoef=tcoef, tlit=tlit, tunit=tunit, tnegc=tnegc, tset=t
              maxof=maxof, minof=minof, maxabs=maxabs, lit_true=lit_true, count=count, ctrue=ctrue,
              clen=clen, cget=cget, cnil=cnil, csnoc=csnoc, capp=capp, ctake=ctake, combs=combs, sat=sat,
              cmaxabs=cmaxabs, pow2=pow2, chaszero=chaszero, psum=psum, card2=card2, isperm=isperm, sortedperm=sortedperm, invperm=invperm, imapsub=imapsub, zpos=zpos, mpos=mpos, rnbrs=rnbrs, apseq=apseq, negunits=negunits, idxcombs=idxcombs, iflip1=iflip1, iflips=iflips, neqprefix=neqprefix, signvecs=signvecs, sprod=sprod, smul=smul, pfilter=pfilter, iofarr=iofarr, nbrs=nbrs, evar=evar, liftcls=liftcls, liftsem=liftsem, yblock=yblock, ifront=ifront, ilast=ilast, psatx=psatx, valid1x=valid1x, cvalidx=cvalidx, yxdom=yxdom, signvecsm=signvecsm, ysign=ysign, ydom=ydom, psat=psat, valid1=valid1, cvalid=cvalid, cdistinct=cdistinct, cmem=cmem, cset=cset, csubsel=csubsel, implchain=implchain, ishift=ishift, preds=preds, outdeg=outdeg, gtopo=gtopo, gsinkok=gsinkok,
-             ev3=ev3, opq=opq, wid=wid, evrow=evrow, rowapp=rowapp, rowsfrom=rowsfrom, dropc=dropc, dterms=dterms, dcons=dcons, tevent=tevent, cevent=cevent, dlits=dlits, dclauses=dclauses, levent=levent, gad=gad, cdist_tab=cdist_tab, cdist=cdist, cdistall=cdistall, cind=cind, satind=satind, aind=aind)
+             ev3=ev3, evnest=evnest, dedges=dedges, opq=opq, wid=wid, evrow=evrow, rowapp=rowapp, rowsfrom=rowsfrom, dropc=dropc, dterms=dterms, dcons=dcons, tevent=tevent, cevent=cevent, dlits=dlits, dclauses=dclauses, levent=levent, gad=gad, cdist_tab=cdist_tab, cdist=cdist, cdistall=cdistall, cind=cind, satind=satind, aind=aind)
 
 
 def zmax(a, b):
@@ -473,6 +475,10 @@ def _on_terms(terms_by_decl):
     # --- output traces
     for (tid, x, y) in terms_by_decl.get('ev3', []):
         out.append(ev3(tid, x, y) != evcomment)                                   # Trace.lean ev3_ne_comment (tid >= 0 by construction)
+    for (tid, g, t) in terms_by_decl.get('dedges', []):
+        # Trace.lean dedges_zero / dedges_succ
+        out.append(z3.Implies(t == 0, dedges(tid, g, t) == cnil))
+        out.append(z3.Implies(t >= 0, dedges(tid, g, t + 1) == csnoc(dedges(tid, g, t), ev3(tid, gedge1(g, t), gedge2(g, t)))))
     for (k,) in terms_by_decl.get('opq', []):
         # Trace.lean opq_zero / opq_succ
         out.append(z3.Implies(k == 0, opq(k) == cnil))
